@@ -15,6 +15,10 @@ fn text(construct: &str, n: usize) -> String {
         "list" => format!("{}i1{}", "[".repeat(n), "]".repeat(n)),
         "map" => format!("{}i1{}", "{a:".repeat(n), "}".repeat(n)),
         "else-chain" => format!("{}c", "if a then b else ".repeat(n)),
+        // the same table with a condition that is None: the evaluation fails at the first level — whatever reports the failure
+        // must not walk the arms that were never evaluated
+        "else-chain-none" => format!("{}c", "if nothing then b else ".repeat(n)),
+        "and-chain-none" => format!("nothing{}", " and a".repeat(n)),
         "index-chain" => format!("a{}", ".b".repeat(n)),
         "parens" => format!("{}a{}", "(".repeat(n), ")".repeat(n)),
         // length instead of depth: n items / characters at nesting depth 1
@@ -115,7 +119,7 @@ fn work(construct: &str, op: &str, n: usize) {
                     std::mem::forget(e);
                 }
                 "evaluate" => {
-                    let facts: Value = std::collections::BTreeMap::from([("a", Value::Bool(true)), ("b", Value::Int(1)), ("c", Value::Int(2))]).into();
+                    let facts: Value = std::collections::BTreeMap::from([("a", Value::Bool(true)), ("b", Value::Int(1)), ("c", Value::Int(2)), ("nothing", Value::None)]).into();
                     let r = block_on(e.evaluate(&facts));
                     std::mem::forget(r);
                     std::mem::forget(e);
